@@ -43,7 +43,7 @@ TInit == /\ Init
          /\ tid \in 1..Len(Traces) /\ li = 0
          /\ cfg = [L |-> M.L, CS |-> M.CS, W |-> M.W, Pre |-> M.Pre, Ow |-> M.Ow,
                    FaultChunk |-> M.FaultChunk, EmptyCentre |-> M.EmptyCentre, Where |-> M.Where,
-                   Kill |-> M.Kill]
+                   Kill |-> M.Kill, Buf |-> M.Buf]
          /\ TLCSet(tid, 0) /\ TLCSet(1000000 + tid, FALSE)
 
 More == li < Len(T)
